@@ -57,7 +57,54 @@ def cases(tier, seed):
         c["tier"] = tier
         c["seed"] = seed
         out.append(c)
+    # rods with many elements: nodal interpolation at every node, with every float spelling of the nodal parameter
+    # (element look-up at interior element boundaries; seeded C11-e)
+    for interp, p in R.INTERPS:
+        for nel in (5, 7, 10):
+            out.append({"kind": "many_elements", "interp": interp, "p": p, "mixed": False, "cons": None, "nel": nel, "ref": "helix",
+                        "mat": "Simo1986", "full_int": False, "tier": tier, "seed": seed})
     return out
+
+
+def check_many(case):
+    seed = case.get("seed", 0)
+    rod, s, Q = R.build(case, seed)
+    q = R.base_states(rod, Q, seed)[1][1]
+    u = 0.7 * ab.weyl(seed, 31, s.nu)
+    b = np.array([0.05, -0.08, 0.03])
+    t = 0.0
+    n = rod.nnodes_r - 1
+    fails = {}
+    evals = 0
+    worst = 0.0
+    nspell = 0
+    for k in range(rod.nnodes_r):
+        spell = {float(np.linspace(0.0, 1.0, n + 1)[k]), k / n, k * (1.0 / n), 1.0 - (n - k) / n, float(np.float32(k) / np.float32(n)) if k in (0, n) else k / n}
+        r_k = q[rod.qDOF[rod.nodalDOF_r[k]]]
+        A_k = ab.quat_to_A(q[rod.qDOF[rod.nodalDOF_p[k]]])
+        v_k = u[rod.uDOF[rod.nodalDOF_r_u[k]]]
+        om_k = u[rod.uDOF[rod.nodalDOF_p_u[k]]]
+        for xk in sorted(spell):
+            nspell += 1
+            qe = q[rod.qDOF[rod.local_qDOF_P(xk)]]
+            ue = u[rod.uDOF[rod.local_uDOF_P(xk)]]
+            obs = [
+                ("r_OP at nodal xi vs nodal position [many elements]", rod.r_OP(t, qe, xk), r_k),
+                ("A_IB at nodal xi vs Exp(nodal quaternion) [many elements]", rod.A_IB(t, qe, xk), A_k),
+                ("v_P at nodal xi vs nodal velocity [many elements]", rod.v_P(t, qe, ue, xk), v_k),
+                ("r_OP with offset at nodal xi vs r + A b [many elements]", rod.r_OP(t, qe, xk, b), r_k + A_k @ b),
+                ("v_P with offset at nodal xi vs v + A (omega x b) [many elements]", rod.v_P(t, qe, ue, xk, b), v_k + A_k @ np.cross(om_k, b)),
+                ("J_P u at nodal xi vs nodal velocity [many elements]", np.asarray(rod.J_P(t, qe, xk), float) @ ue, v_k),
+            ]
+            evals += len(obs)
+            for site, got_, ref_ in obs:
+                e = _maxabs(np.asarray(got_, float) - ref_) / max(1.0, _maxabs(ref_))
+                worst = max(worst, e)
+                if not e <= 1e-11 and site not in fails:
+                    fails[site] = {"site": site, "msg": f"error {e:.3e} at node {k} (xi={xk!r}) of a rod with {case['nel']} elements",
+                                   "data": {"node": k, "xi": xk, "err": e, "nel": case["nel"], "interp": case["interp"], "p": case["p"]}}
+    return {"fails": list(fails.values()), "nontrivial": nspell > rod.nnodes_r, "evals": evals, "outcome": "many_elements:" + str(case["interp"]),
+            "stats": {"max_err_nodal_many": worst, "n_xi_spellings": nspell}}
 
 
 def _states(rod, Q, tier, seed):
@@ -91,6 +138,8 @@ def _maxabs(a):
 
 
 def check(case):
+    if case.get("kind") == "many_elements":
+        return check_many(case)
     seed = case.get("seed", 0)
     tier = case.get("tier", "quick")
     rod, s, Q = R.build(case, seed)
